@@ -13,7 +13,7 @@ ASSUMPTIONS = ["numpy on one row is the reference (np.cumsum / ufunc.accumulate 
 REQUIRED_FEATURES = ["empty_row_first", "empty_row_last", "all_rows_empty", "zero_rows", "duplicates_across_row_boundary",
                      "diff_order_exceeds_row", "unique_counts", "accumulate", "same_object_sequence", "close_64bit_values"]
 BOUNDS = {"quick": "LV(4,3) x {bool,int8,int64,uint8,uint64,float64} x 3 patterns x {cumsum (method, function), add/subtract/xor.accumulate, "
-                   "sort (method), unique, unique+counts, diff n=0..4}; operand unchanged",
+                   "sort (method), unique, unique+counts, diff n=0..4}; operand unchanged; axis=1 spellings and defaults; 64-bit neighbours beyond 2**53 for sort / unique; same-object sequences of 12 operations (contiguous and pending view); named float inputs of the known finding",
           "thorough": "LV(5,3) u LV(3,5), plus int16/int32/float32, diff n=0..6"}
 DT_Q = ["bool", "int8", "int64", "uint8", "uint64", "float64"]
 OPS = ["cumsum_m", "cumsum_f", "add.acc", "sub.acc", "xor.acc", "sort_m", "sort_default", "sort_axis1", "cumsum_axis1", "unique", "unique_c", "unique_axis1",
